@@ -24,7 +24,12 @@ PAIRS = [
  # flag carried to a shared tail == decisions taken in the arms
  (True, "def f(s, n):\n    while True:\n        r = s.read(n)\n        if r is None:\n            yield U()\n        elif not r:\n            raise E()\n        elif len(r) < n:\n            m = s.read(1)\n            if m is not None and not m:\n                raise E()\n            yield U()\n        else:\n            break\n    yield r",
         "def f(s, n):\n    while True:\n        r = s.read(n)\n        if r is None:\n            ended = False\n        elif not r:\n            ended = True\n        elif len(r) < n:\n            m = s.read(1)\n            ended = m is not None and not m\n        else:\n            break\n        if ended:\n            raise E()\n        yield U()\n    yield r"),
+ (True, "def f(self, **kw):\n    i = self.r.copy()\n    c = kw.pop('c', False)\n    return g(i, c)", "def f(self, **kw):\n    c = kw.pop('c', False)\n    i = self.r.copy()\n    return g(i, c)"),
  # ---------------- must NOT be proven equivalent
+ (False, "def f(self, **kw):\n    i = self.r.copy()\n    c = kw.pop('c')\n    return g(i, c)", "def f(self, **kw):\n    c = kw.pop('c')\n    i = self.r.copy()\n    return g(i, c)"),
+ (False, "def f(self, **kw):\n    self.h(kw)\n    i = self.r.copy()\n    c = kw.pop('c', False)\n    return g(i, c)", "def f(self, **kw):\n    self.h(kw)\n    c = kw.pop('c', False)\n    i = self.r.copy()\n    return g(i, c)"),
+ (False, "def f(self, kw):\n    i = self.r.copy()\n    c = kw.pop('c', False)\n    return g(i, c)", "def f(self, kw):\n    c = kw.pop('c', False)\n    i = self.r.copy()\n    return g(i, c)"),
+ (False, "def f(self, **kw):\n    i = self.r(**kw)\n    c = kw.pop('c', False)\n    return g(i, c)", "def f(self, **kw):\n    c = kw.pop('c', False)\n    i = self.r(**kw)\n    return g(i, c)"),
  (False, "def f(s, n):\n    r = s.read(n)\n    if r is None:\n        ended = False\n    elif not r:\n        ended = True\n    else:\n        ended = False\n    if ended:\n        raise E()\n    return r",
          "def f(s, n):\n    r = s.read(n)\n    if r is None:\n        ended = True\n    elif not r:\n        ended = True\n    else:\n        ended = False\n    if ended:\n        raise E()\n    return r"),
  (False, "def f(a, b):\n    ok = a is not None and not b\n    if ok:\n        raise E()\n    return 1", "def f(a, b):\n    ok = a is not None or not b\n    if ok:\n        raise E()\n    return 1"),
